@@ -9,11 +9,15 @@ def tla_ev(e):
         e["op"], e["phase"], e["a"], e.get("arg", 0), e.get("n", 0), "TRUE" if e.get("err") else "FALSE")
 
 
+REJECTED = [0]
+
+
 def validate(logs, locked, tier):
     """logs: list of (scenario request, result).  Returns (validated, accepted, [(request, why)])."""
     import check_c12 as c
     sel = [(q, r) for q, r in logs if q["workers"] <= 2 and q["target"] == "fs"]
-    sel = sel[:40 if tier == "quick" else 400]
+    cap = 20 if tier == "quick" else 200
+    sel = [x for x in sel if x[0]["workers"] == 1][:cap] + [x for x in sel if x[0]["workers"] == 2][:cap]
     if not sel:
         return 0, 0, []
     bad = []
@@ -23,6 +27,22 @@ def validate(logs, locked, tier):
         grp = [(q, r) for q, r in sel if q["workers"] == W]
         if not grp:
             continue
+        # binding self-test: corrupted copies of the first logs (a start date off by one, a dropped append) must be rejected
+        corrupt = []
+        for q, r in grp[:6]:
+            for kind in ("since", "drop"):
+                lg = [dict(e) for e in r["log"]]
+                idx = [i for i, e in enumerate(lg) if e["op"] == ("get" if kind == "since" else "append") and e["phase"] == "call"]
+                if not idx:
+                    continue
+                if kind == "since":
+                    lg[idx[0]]["arg"] = lg[idx[0]].get("arg", 0) + 1
+                else:
+                    del lg[idx[0]]
+                q2 = dict(q); q2["id"] = q["id"] + (100000 if kind == "since" else 200000)
+                corrupt.append((q2, {"log": lg}))
+        real = grp
+        grp = grp + corrupt
         scen = "{\n" + ",\n".join(c.tla_scenario(q) for q, _ in grp) + "\n}"
         traces = "(" + " @@ ".join("%d :> <<%s>>" % (q["id"], ", ".join(tla_ev(e) for e in r["log"])) for q, r in grp) + ")"
         data = "---- MODULE SyncTraceData ----\nEXTENDS Integers, Sequences, TLC\nTraceScenarios == %s\nTraceLogs == %s\n====\n" % (scen, traces)
@@ -31,7 +51,12 @@ def validate(logs, locked, tier):
         res = vlib.run_tlc({"Sync.tla": None, "SyncTrace.tla": None, "SyncTraceData.tla": data}, "SyncTrace", cfg, workers=1,
                            timeout=1800, heap="4g", dfs=True)
         ok = {o["id"] for t, o in res.prints if t == "ACC"}
-        for q, r in grp:
+        accepted_corrupt = [q["id"] for q, _ in corrupt if q["id"] in ok]
+        if accepted_corrupt:
+            raise vlib.Machinery("SyncTrace accepts corrupted call logs %s: the trace specification binds nothing" % accepted_corrupt[:5])
+        REJECTED[0] += len(corrupt)
+        print("TRACE: W=%d: %d call logs, %d corrupted copies rejected" % (W, len(real), len(corrupt)))
+        for q, r in real:
             if q["id"] in ok:
                 acc += 1
             else:
